@@ -53,7 +53,7 @@ fn monitors() -> Vec<(Meta, RunFn, ReplayFn)> {
     macro_rules! m {
         ($($m:ident),*) => { vec![$((mon::$m::meta(), mon::$m::run as RunFn, mon::$m::replay as ReplayFn)),*] };
     }
-    m!(c01, c02, c03, c04, c05, c06, c07, c08, c09, c10, c11, c12, c13, c14, c15, c16)
+    m!(c01, c02, c03, c04, c05, c06, c07, c08, c09, c10, c11, c12, c13, c14, c15, c16, c17)
 }
 
 fn main() {
